@@ -38,6 +38,7 @@ type run struct {
 	shape  []string
 	// bytes of the destination attributed to (and validated with) a call
 	attributed int
+	excluded   int   // ExcludedExactFit already reported to hx
 	ctorErr    error // the constructed writer does not have the documented buffer
 }
 
@@ -48,6 +49,7 @@ func newRun(cfg wh.Config, seed int64) *run {
 	ck := wh.NewChecker(cfg)
 	ck.SkipKnown = hx.Known(wh.SigFlushNoopAfterReadFromError)
 	ck.Keys = &keys
+	ck.SkipExactFit = hx.Known(wh.SigReadFromExactFit)
 	r := &run{cfg: cfg, seed: seed, rec: rec, ex: wh.NewExec(w, rec), ck: ck}
 	if lo, hi, ok := wh.SizeBounds(cfg); ok {
 		// "any buffer size (default, sized, caller-supplied)": the buffer is the
@@ -110,6 +112,11 @@ func (r *run) do(a wh.Action) error {
 	if r.ctorErr != nil {
 		return r.ctorErr
 	}
+	defer func() {
+		for ; r.excluded < r.ck.ExcludedExactFit; r.excluded++ {
+			hx.Exclude(wh.SigReadFromExactFit)
+		}
+	}()
 	r.shape = append(r.shape, a.Shape(r.ex.View()))
 	res := r.ex.Do(a)
 	r.attributed += len(res.Out)
@@ -549,6 +556,7 @@ func TestKnownFindings(t *testing.T) {
 			present = true
 		}
 	}
+	probeExactFit(t)
 	hx.Probe(t, wh.SigFlushNoopAfterReadFromError, what, present, map[string]interface{}{
 		"writer": "NewWriterBufferSize(server, text, 10)", "source": "8 bytes, then a non-EOF error", "readfrom_n": n, "flush_err": fmt.Sprint(ferr),
 		"frames_after_flush": ref.Describe(fs1), "frames_after_next_message": ref.Describe(fs)})
@@ -603,4 +611,20 @@ func TestDestinationFault(t *testing.T) {
 	hx.EvalN(n)
 	hx.Class(fmt.Sprintf("fault/deterministic/fault-happened=%d-of-%d", happened, n))
 	hx.Part("destination fault: 3 buffer sizes x side x flush mode x 5 scripts x failing call 0..7 x short write 0/1/4/all x transient", int64(n), true)
+}
+
+// Eight bytes copied from a reader into an 8-byte buffer fit it: one final frame.
+func probeExactFit(t *testing.T) {
+	rec := tx.NewRec()
+	w := wsutil.NewWriterBufferSize(rec, ws.StateServerSide, ws.OpText, 10) // Size() == 8
+	n, err := w.ReadFrom(bytes.NewReader([]byte("12345678")))
+	ferr := w.Flush()
+	fs, rest, _ := ref.ParseFrames(rec.Bytes())
+	hx.Eval()
+	if w.Size() != 8 || n != 8 || err != nil || ferr != nil || len(rest) != 0 {
+		hx.Failf(t, nil, "probe set-up: Size()=%d ReadFrom=(%d, %v) Flush=%v", w.Size(), n, err, ferr)
+		return
+	}
+	hx.Probe(t, wh.SigReadFromExactFit, "wsutil.Writer (Size()==8): ReadFrom of an 8-byte reader followed by Flush sends a non-final 8-byte frame plus an empty final continuation (01 08 ... 80 00) instead of the single frame 81 08 ...: data that fits the buffer does not leave as a single frame", len(fs) != 1,
+		map[string]interface{}{"writer": "NewWriterBufferSize(server, text, 10)", "source": "bytes.NewReader(8 bytes)", "sent": fmt.Sprintf("%x", rec.Bytes()), "frames": ref.Describe(fs), "want": "81 08 3132333435363738"})
 }
